@@ -41,6 +41,7 @@ META["claim"] += " " + 'Also: long strings with an open multi-byte sequence endi
 META["claim"] += " " + 'Round 3b: about half of the receive cases with trace logging on; after a rejected message the same connection receives further valid and invalid messages, each judged on its own.'
 META["claim"] += " " + 'Round 4: the corpus through WebSocketApp with and without on_cont_message; texts with BOM etc.; ambient conditions drawn per connection on the receive path.'
 META["claim"] += " " + 'Round 5: payloads beyond 16 MiB (truncated tail, surrogate at the end, overlong inside, well-formed); close reasons through WebSocketApp with four callback sets (incl. none that receives messages).'
+META["claim"] += " " + 'Rounds 6-7: options after redirects, characters straddling every 2^n boundary, the wsaccel branch (stand-in); ill-formed text after a receive call that failed (timeout, failing pong, interrupt) through every receive call; a reader blocked in a receive call while another thread calls close() and the server answers with an ill-formed reason (all I/O-point interleavings, random line-level ones).'
 
 
 def classify(data: bytes) -> str:
